@@ -92,11 +92,20 @@ func c14ServiceHistory(c *core.Ctx, p idxParams, h int) bool {
 		// (B) ordinary resource with path param
 		s.Handle("bykey.$p", res.Collection, store.QueryHandler{QueryStore: env.qs, Transformer: trans,
 			RequestHandler: func(rname string, pp map[string]string) (url.Values, error) {
+				if pp["p"] == "unserved" {
+					return nil, res.ErrNotFound
+				}
 				return idxQuery{Index: "k", Prefix: pp["p"], Limit: -1}.values(), nil
 			},
 			AffectedResources: func(pat res.Pattern, qc store.QueryChange) []string {
 				var out []string
-				for _, p := range byKeyParams {
+				for i, p := range byKeyParams {
+					if i == 2 {
+						// one resource named is not served by the request handler (a key that has no
+						// collection): an error for it does not concern the clients of the others,
+						// whether they are named before or after it
+						out = append(out, string(pat.ReplaceTag("p", "unserved")))
+					}
 					out = append(out, string(pat.ReplaceTag("p", p)))
 				}
 				return out
